@@ -129,10 +129,10 @@ SEED_EXPECT={
  "C06-6":"R-PANIC/P6","C07-6":"R-PROV/mainfirst","C08-6":"R-LOCK/poolalias","C09-6":"R-SYM/commentkind","C10-6":"R-LOCK/L5",
  "C11-6":"R-PANIC/P2g","C12-6":"R-PROV/V2s","C13-6":"R-PROV/exportscope","C14-6":"R-DET/N1","C15-6":"R-SYM/S5v",
  "C16-6":"R-FLOW/closure","C17-6":"R-FLOW/required","C18-6":"R-ERR/E4u","C19-6":"R-CONST/disjoint","C20-6":"R-PANIC/P2",
- "C16-4":"R-SYM/entityref","C19-4":"R-POS/attach",
+ "C16-4":"R-SYM/entityref","C19-4":"R-POS/attach","C09-4":"R-SYM/headerdesc",
 }
 # seeds kept on record that no rule is meant to see (see DESIGN.md §10.4): not part of the self-test
-UNCOVERED={"C09-4"}
+UNCOVERED=set()
 for d in sorted(glob.glob(f"{ROOT}/seeded/C*")):
     sid=os.path.basename(d); p=sid.split("-")[0]
     if sid in UNCOVERED:
